@@ -37,6 +37,12 @@ CHECKS = {
         "The programs are extracted from main.rs by rs2v on every run and `protocol_monotone = true` is re-proved; the real binary is driven through every total order of its exit-code accesses by a cfg-guarded scheduling cell, and through --num-threads 1..16.",
    design="5/C19", technique="Coq proof over all schedules + protocol regenerated from source + forced interleavings on the binary",
    note=BASE_NOTE + "Real preemption is replaced by forced orders of named accesses (hook src/cli/verif_sched.rs); only the exit-code cell is scheduled."),
+ "C12": dict(
+   text="Theorems over all statement lists: the output is a permutation of the statements, every piece of leading trivia is kept exactly once, non-require statements keep their slots, the output is the input's groups each sorted on its own "
+        "(sorted, stable, idempotent), a group with an ignored member is untouched, off = identity; instantiated with the proved-total byte-wise string order. The hand-written model is tied by running the extracted sort on the input's statement list "
+        "and comparing slot by slot with the formatted output on 20k random programs.",
+   design="5/C12", technique="Coq proof over statement lists + differential of the extracted model against format_code",
+   note=BASE_NOTE + "Group boundaries use full_moon's line numbers; ignore directives are recomputed by the harness."),
 }
 PENDING = {}
 def main():
